@@ -133,7 +133,7 @@ def audit(prop_id, whitelist_native=()):
     discharged = 0
     blocks = re.split(r"(?=')", out)
     found = {}
-    for m in re.finditer(r"'([^']+)' (does not depend on any axioms|depends on axioms: \[([^\]]*)\])", out, re.S):
+    for m in re.finditer(r"'(\S+)' (does not depend on any axioms|depends on axioms: \[([^\]]*)\])", out, re.S):
         name = m.group(1)
         axs = set(a.strip() for a in (m.group(3) or "").replace("\n", " ").split(",") if a.strip())
         found[name] = axs
@@ -335,8 +335,8 @@ def gen_cases(profile, seed, count, model_profile="release"):
     return files, obs
 
 
-def load_lines(files, verbose=False):
-    cmd = "LOADV" if verbose else "LOAD"
+def load_lines(files, verbose=False, outcome_only=False):
+    cmd = "LOADO" if outcome_only else ("LOADV" if verbose else "LOAD")
     return [f"{cmd} {cid} {b.hex() or '-'}" for cid, b in files]
 
 
